@@ -54,7 +54,7 @@ def plan(prop: str, tier: str) -> Plan:
     tzs = [{"TZ": "UTC"}, {"TZ": "EST5EDT"}, {"TZ": "XYZ-5:30"}, {"TZ": "AEST-10AEDT,M10.1.0,M4.1.0/3"}]
     if tier == "quick":
         return Plan(shards=4, cases_per_shard=1200, timeout_s=600, shard_env=tzs)
-    return Plan(shards=16, cases_per_shard=20000, timeout_s=3000, shard_env=tzs)
+    return Plan(shards=16, cases_per_shard=120000, timeout_s=3000, shard_env=tzs)
 
 
 # ---------------------------------------------------------------------------------------------
